@@ -133,6 +133,7 @@ EmptyShapes == <<
   WithEmpty("z.list", Rep(MsgF("Subs", 1, "Empty"))),
   WithEmpty("z.list.val", NonNull(Rep(MsgF("Subs", 1, "Empty")))),
   WithEmpty("z.map", MapOf(MsgF("Dict", 1, "Empty"))),
+  WithEmpty("z.map.val", NonNull(MapOf(MsgF("Dict", 1, "Empty")))),
   Shape("z.root", Desc(<<Msg("Root", <<>>, <<>>)>>), BaseCfg) >>
 
 DeepShapes == <<
